@@ -153,6 +153,8 @@ class RunAnalysisResult:
 
         self._list_metrics = self._list_metrics.join(other._list_metrics, how="outer")
         self._global_metrics = pd.concat([self._global_metrics, other._global_metrics])
+        # the merged-in metrics keep the defaults they were registered with
+        self._defaults = other._defaults | self._defaults
 
 
 def _wrap_metric(
